@@ -209,6 +209,29 @@ theorem validates_array (cs : Constraints) (s : Sch) (d : Py) :
   rw [validates]
   cases d <;> simp [typeMatches, onListB, onDictB, vPre, vItems, vAnyO, preLen]
 
+theorem consOk_empty (d : Py) : consOk {} d = true := by
+  cases d <;> simp [consOk, Py.num?, Constraints.numErrors, Constraints.strErrors, Constraints.dictErrors, optRule]
+
+theorem validates_of_isEmpty {s : Sch} (h : s.isEmpty = true) (d : Py) : validates s d = true := by
+  unfold Sch.isEmpty at h
+  split at h
+  · next c =>
+    have hc : c = {} := by simpa using h
+    subst hc
+    rw [validates_leaf]; simp [consOk_empty]
+  · cases h
+
+/-- `items` is dropped when the item schema is `{}`: same instances -/
+theorem validates_array' (cs : Constraints) (s : Sch) (d : Py) :
+    validates (.mk [.array] Option.none [] cs (subKw s) Option.none [] [] Option.none [] [] Option.none) d
+      = (match d with | .list xs => consOk cs d && xs.all (fun x => validates s x) | _ => false) := by
+  unfold subKw
+  split
+  · next he =>
+    rw [validates]
+    cases d <;> simp [typeMatches, onListB, onDictB, vPre, vItems, vAnyO, preLen, validates_of_isEmpty he]
+  · exact validates_array cs s d
+
 theorem validates_tuple (cs : Constraints) (ss : List Sch) (d : Py) :
     validates (.mk [.array] Option.none [] cs (some (.inl false)) (some ss) [] [] Option.none [] [] Option.none) d
       = (match d with
@@ -222,6 +245,16 @@ theorem validates_mapping (cs : Constraints) (s : Sch) (d : Py) :
       = (match d with | .dict kvs => consOk cs d && kvs.all (fun kv => validates s kv.2) | _ => false) := by
   rw [validates]
   cases d <;> simp [typeMatches, onListB, onDictB, vProps, vPats, vAddl, vAnyO, propNames, patList]
+
+theorem validates_mapping' (cs : Constraints) (s : Sch) (d : Py) :
+    validates (.mk [.object] Option.none [] cs Option.none Option.none [] [] (subKw s) [] [] Option.none) d
+      = (match d with | .dict kvs => consOk cs d && kvs.all (fun kv => validates s kv.2) | _ => false) := by
+  unfold subKw
+  split
+  · next he =>
+    rw [validates]
+    cases d <;> simp [typeMatches, onListB, onDictB, vProps, vPats, vAddl, vAnyO, propNames, patList, validates_of_isEmpty he]
+  · exact validates_mapping cs s d
 
 theorem validates_object (cs : Constraints) (props : List (String × Sch)) (req : List String) (ap : Bool) (d : Py) :
     validates (.mk [.object] Option.none [] cs Option.none Option.none props req (some (.inl ap)) [] [] Option.none) d
@@ -239,6 +272,21 @@ theorem validates_object (cs : Constraints) (props : List (String × Sch)) (req 
       | cons kv kvs ih =>
         by_cases h : kv.1 ∈ propNames props <;> simp [List.filter, h, ih]
     rw [this]; simp only [Bool.and_assoc]
+
+/-- `additionalProperties: true` is dropped: same instances -/
+theorem validates_object' (cs : Constraints) (props : List (String × Sch)) (req : List String) (ap : Bool) (d : Py) :
+    validates (.mk [.object] Option.none [] cs Option.none Option.none props req (apKw ap) [] [] Option.none) d
+      = (match d with
+         | .dict kvs => consOk cs d && (vProps props kvs && req.all (fun r => (lookupKey kvs r).isSome))
+                          && (ap || kvs.all (fun kv => (propNames props).contains kv.1))
+         | _ => false) := by
+  cases ap with
+  | false => exact validates_object cs props req false d
+  | true =>
+    rw [← validates_object cs props req true d]
+    unfold apKw
+    rw [if_pos rfl, validates, validates]
+    cases d <;> simp [onDictB, vAddl]
 
 theorem tuple_len (cs : Constraints) (n len : Nat) :
     (lenOk (cs.merge { minItems := some n, maxItems := some n }) len && decide (len ≤ n))
@@ -271,9 +319,6 @@ theorem merge_unique {c cs : Constraints} (h1 : c.unique = false) (h2 : cs.uniqu
     (c.merge cs).unique = false := by
   show (c.unique || cs.unique) = false
   rw [h1, h2]; rfl
-
-theorem consOk_empty (d : Py) : consOk {} d = true := by
-  cases d <;> simp [consOk, Py.num?, Constraints.numErrors, Constraints.strErrors, Constraints.dictErrors, optRule]
 
 theorem validates_lit (ty : List JT) (const : Option Lit) (enum : List Lit) (d : Py) :
     validates (.mk ty const enum {} Option.none Option.none [] [] Option.none [] [] Option.none) d
@@ -366,7 +411,8 @@ theorem validates_addNull (ty : List JT) (cons : Constraints) (items : Option (B
 theorem unionSchema_pair (r n : Sch) : unionSchema [r, n] =
     (if [r, n].any Sch.isEmpty then Sch.empty
      else if [r, n].all Sch.onlyType then .mk (normTypes ([r, n].flatMap Sch.type)) Option.none [] {} Option.none Option.none [] [] Option.none [] [] Option.none
-     else if [r, n].length == 2 && [r, n].all (fun r => !r.type.isEmpty) && [r, n].any (fun r => r.onlyType && r.type == [.null]) then
+     else if [r, n].length == 2 && [r, n].all (fun r => !r.type.isEmpty) && [r, n].any (fun r => r.onlyType && r.type == [.null])
+             && [r, n].all Sch.noLits then
        (match [r, n].find? (fun r => !(r.onlyType && r.type == [.null])) with
         | some r => if r.type.contains .null then r else r.withType (r.type ++ [.null])
         | Option.none => Sch.ofType .null)
@@ -378,21 +424,68 @@ theorem union_prim (j : JT) (hj : j ≠ .null) :
       = .mk [j, .null] Option.none [] {} Option.none Option.none [] [] Option.none [] [] Option.none := by
   cases j <;> first | rfl | exact absurd rfl hj
 
-theorem union_array (cons : Constraints) (items : Option (Bool ⊕ Sch)) (pre : Option (List Sch))
-    (h : items.isSome = true) :
+/-- the `Optional` shortcut on a schema that is more than a `type` and carries no `enum` / `const` -/
+theorem union_opt (r : Sch) (he : r.isEmpty = false) (hot : r.onlyType = false) (hty : r.type.isEmpty = false)
+    (hnl : r.noLits = true) (hnn : r.type.contains .null = false) :
+    unionSchema [r, Sch.ofType .null] = r.withType (r.type ++ [.null]) := by
+  rw [unionSchema_pair]
+  have n1 : (Sch.ofType .null).isEmpty = false := rfl
+  have n2 : (Sch.ofType .null).onlyType = true := rfl
+  have n3 : (Sch.ofType .null).type = [.null] := rfl
+  have n4 : (Sch.ofType .null).noLits = true := rfl
+  simp only [List.any_cons, List.any_nil, List.all_cons, List.all_nil, he, hot, n1, n2, n3, n4, hty, hnl, Bool.or_false,
+    Bool.false_or, Bool.and_true, Bool.false_and, Bool.true_and, Bool.not_false, List.length_cons, List.length_nil,
+    List.find?, beq_self_eq_true, Bool.not_true, hnn, List.isEmpty_cons]
+  simp
+
+theorem union_array (cons : Constraints) (items : Option (Bool ⊕ Sch)) (pre : Option (List Sch)) :
     unionSchema [.mk [.array] Option.none [] cons items pre [] [] Option.none [] [] Option.none, Sch.ofType .null]
       = .mk ([.array] ++ [.null]) Option.none [] cons items pre [] [] Option.none [] [] Option.none := by
-  cases items with
-  | none => cases h
-  | some i => rfl
+  rw [unionSchema_pair]
+  by_cases hot : (Sch.mk [.array] Option.none [] cons items pre [] [] Option.none [] [] Option.none).onlyType = true
+  · -- nothing but `type`: the type lists are concatenated
+    have hi : items = Option.none := by
+      cases items with
+      | none => rfl
+      | some i => simp [Sch.onlyType] at hot
+    have hp : pre = Option.none := by
+      cases pre with
+      | none => rfl
+      | some i => subst hi; simp [Sch.onlyType] at hot
+    subst hi; subst hp
+    have hc : cons = {} := by simpa [Sch.onlyType] using hot
+    subst hc
+    rfl
+  · have hot' : (Sch.mk [.array] Option.none [] cons items pre [] [] Option.none [] [] Option.none).onlyType = false := by
+      simpa using hot
+    rw [← unionSchema_pair]
+    exact union_opt _ rfl hot' rfl rfl rfl
 
-theorem union_object (props : List (String × Sch)) (req : List String) (addl : Option (Bool ⊕ Sch))
-    (h : addl.isSome = true) :
+theorem union_object (props : List (String × Sch)) (req : List String) (addl : Option (Bool ⊕ Sch)) :
     unionSchema [.mk [.object] Option.none [] {} Option.none Option.none props req addl [] [] Option.none, Sch.ofType .null]
       = .mk ([.object] ++ [.null]) Option.none [] {} Option.none Option.none props req addl [] [] Option.none := by
-  cases addl with
-  | none => cases h
-  | some i => cases props <;> first | rfl | (cases req <;> rfl)
+  rw [unionSchema_pair]
+  by_cases hot : (Sch.mk [.object] Option.none [] {} Option.none Option.none props req addl [] [] Option.none).onlyType = true
+  · have ha : addl = Option.none := by
+      cases addl with
+      | none => rfl
+      | some i => cases props <;> cases req <;> simp [Sch.onlyType] at hot
+    subst ha
+    have hp : props = [] := by
+      cases props with
+      | nil => rfl
+      | cons p ps => simp [Sch.onlyType] at hot
+    subst hp
+    have hr : req = [] := by
+      cases req with
+      | nil => rfl
+      | cons p ps => simp [Sch.onlyType] at hot
+    subst hr
+    rfl
+  · have hot' : (Sch.mk [.object] Option.none [] {} Option.none Option.none props req addl [] [] Option.none).onlyType = false := by
+      simpa using hot
+    rw [← unionSchema_pair]
+    exact union_opt _ rfl hot' rfl rfl rfl
 
 /-- per (inherited constraints, type, datum) -/
 def SchemaOk (ap : Bool) (cs : Constraints) (t : Ty) (d : Py) : Prop :=
@@ -431,7 +524,7 @@ theorem schema_iff_conforms (ap : Bool) :
     intro cs t d ih h _ hu hs
     rw [Ty.sch] at h
     rw [buildD, conforms]; simp only [mergeInto, Sch.withCons, Sch.cons, merge_empty_right]
-    rw [validates_array]
+    rw [validates_array']
     cases d <;> try rfl
     case list xs =>
       rw [Py.sane] at hs
@@ -445,7 +538,7 @@ theorem schema_iff_conforms (ap : Bool) :
     intro cs t d ih h _ hu hs
     rw [Ty.sch] at h
     rw [buildD, conforms]; simp only [mergeInto, Sch.withCons, Sch.cons, merge_empty_right]
-    rw [validates_array]
+    rw [validates_array']
     cases d <;> try rfl
     case list xs =>
       rw [Py.sane] at hs
@@ -479,7 +572,7 @@ theorem schema_iff_conforms (ap : Bool) :
     rw [buildD, conforms]
     have hks : buildD ap Ty.str = Sch.ofType .string := by rw [buildD]
     simp only [hks, mappingSchema, Sch.ofType, Sch.cons, mergeInto, Sch.withCons, merge_empty_right]
-    rw [validates_mapping]
+    rw [validates_mapping']
     cases d <;> try rfl
     case dict kvs =>
       rw [Py.sane] at hs
@@ -519,21 +612,21 @@ theorem schema_iff_conforms (ap : Bool) :
       have : unionSchema [buildD ap Ty.any, Sch.ofType .null] = Sch.empty := by rw [buildD]; rfl
       rw [this, buildD]; simp [Sch.empty, validates_leaf, consOk_empty]
     case list t' =>
-      rw [buildD, union_array _ _ _ rfl]; exact validates_addNull _ _ _ _ _ _ _ _ _ (by simp) d
+      rw [buildD, union_array]; exact validates_addNull _ _ _ _ _ _ _ _ _ (by simp) d
     case vtuple t' =>
-      rw [buildD, union_array _ _ _ rfl]; exact validates_addNull _ _ _ _ _ _ _ _ _ (by simp) d
+      rw [buildD, union_array]; exact validates_addNull _ _ _ _ _ _ _ _ _ (by simp) d
     case tuple ts' =>
-      rw [buildD, union_array _ _ _ rfl]; exact validates_addNull _ _ _ _ _ _ _ _ _ (by simp) d
+      rw [buildD, union_array]; exact validates_addNull _ _ _ _ _ _ _ _ _ (by simp) d
     case mapping k v =>
       rw [Ty.sch, Bool.and_eq_true] at hsch
       have hk : k = .str := by cases k <;> first | rfl | (simp [Ty.isStr] at hsch)
       subst hk
       have hks : buildD ap Ty.str = Sch.ofType .string := by rw [buildD]
       have hm : buildD ap (.mapping .str v) = .mk [.object] Option.none [] {} Option.none Option.none [] []
-          (some (.inr (buildD ap v))) [] [] Option.none := by rw [buildD, hks]; rfl
-      rw [hm, union_object _ _ _ rfl]; exact validates_addNull _ _ _ _ _ _ _ _ _ (by simp) d
+          (subKw (buildD ap v)) [] [] Option.none := by rw [buildD, hks]; rfl
+      rw [hm, union_object]; exact validates_addNull _ _ _ _ _ _ _ _ _ (by simp) d
     case obj ci fs =>
-      rw [buildD, union_object _ _ _ rfl]; exact validates_addNull _ _ _ _ _ _ _ _ _ (by simp) d
+      rw [buildD, union_object]; exact validates_addNull _ _ _ _ _ _ _ _ _ (by simp) d
   · -- literal
     intro cs vs d h hb _ _
     rw [Ty.sch] at h; simp only [Bool.and_eq_true, Bool.not_eq_true'] at h
@@ -566,7 +659,7 @@ theorem schema_iff_conforms (ap : Bool) :
     intro cs ci fs d ih h _ hu hs
     rw [Ty.sch] at h
     rw [buildD, conforms]; simp only [mergeInto, Sch.withCons, Sch.cons, merge_empty_right]
-    rw [validates_object]
+    rw [validates_object']
     cases d <;> try rfl
     case dict kvs =>
       rw [Py.sane] at hs
